@@ -24,7 +24,7 @@
       a cell that does not parse is a null bit, var-bytes have no nulls (null/absent -> "");
       a zone in which the field is absent from EVERY row gets no block at all. *)
 From Coq Require Import ZArith NArith List Bool.
-From Snel Require Import Base.Bytes Model.Time Model.Value Model.Expr Model.Sem.
+From Snel Require Import Base.Bytes Gen.Params Model.Time Model.Value Model.Expr Model.Sem.
 Import ListNotations.
 
 (** ** What is kept in memory ([ScalarValue] of the payload map) and what is stored in a column *)
@@ -152,11 +152,23 @@ Fixpoint memZ (z : Z) (l : list Z) : bool :=
 Definition str_op (op : cmp) (t s : bytes) : bool :=
   match op with CEq => bytes_eqb t s | CNe => negb (bytes_eqb t s) | _ => false end.
 
+(** [NumericCondition::evaluate_event_direct]; [query_mem_f64_view] (Gen/Params.v, read from the
+    Rust text) says whether a Float64 cell is compared at all. *)
+Definition mem_num (m : mval) (op : cmp) (v : Z) : bool :=
+  match m_as_i64 m with
+  | Some z => cmpZ op z v
+  | None => match m with
+            | MFloat b _ => if query_mem_f64_view
+                            then cmp_holds op (Z.compare (f64_scaled b) (i64_as_f64_scaled v)) else false
+            | _ => false
+            end
+  end.
+
 (** [None] = the evaluation panics (NOT over an empty condition list). AND/OR short-circuit like
     [Iterator::all]/[any]. *)
 Fixpoint eval_mem (g : bytes -> mval) (c : cond) {struct c} : option bool :=
   match c with
-  | CNum f op v => Some (match m_as_i64 (g f) with Some z => cmpZ op z v | None => false end)
+  | CNum f op v => Some (mem_num (g f) op v)
   | CStrC f op s => Some (str_op op (m_to_string (g f)) s)
   | CInNum f vs => Some (match m_as_i64 (g f) with Some z => memZ z vs | None => false end)
   | CInStr f ss => Some (mem_bytes (m_to_string (g f)) ss)
@@ -188,20 +200,32 @@ Definition sat_i64 (z : Z) : Z := Z.max i64_min (Z.min i64_max z).
 (** [NumericCondition::evaluate_at] *)
 Definition num_at (c : option cell) (op : cmp) (v : Z) : bool :=
   match c with
-  | Some (CU64 (Some n)) => if (v <? 0)%Z then false else cmpZ op (Z.of_N n) v
+  | Some (CU64 (Some n)) =>
+      if (v <? 0)%Z
+      then (if query_u64_neg_rejects_all then false
+            else match op with CGt | CGe | CNe => true | _ => false end)
+      else cmpZ op (Z.of_N n) v
   | Some (CI64 (Some z)) => cmpZ op z v
   | Some (CF64 (Some b)) => cmp_holds op (Z.compare (f64_scaled b) (i64_as_f64_scaled v))
   | Some (CStr s) => match parse_i64 s with Some z => cmpZ op z v | None => false end
   | _ => false
   end.
-(** [evaluate_numeric_simd]: a top-level numeric condition never reaches the f64 branch *)
+(** [evaluate_numeric_simd]: a top-level numeric condition never reaches the f64 branch while the
+    i64 buffer claims every column ([query_i64_buffer_claims_all]) *)
 Definition num_simd (c : option cell) (op : cmp) (v : Z) : bool :=
   match c with
-  | Some (CF64 _) => false
+  | Some (CF64 _) => if query_i64_buffer_claims_all then false else num_at c op v
   | _ => num_at c op v
   end.
+(** [get_str_at]: var-bytes; a typed Bool block has a textual view only if [query_bool_block_str_view] *)
+Definition cell_str (c : option cell) : option bytes :=
+  match c with
+  | Some (CStr t) => Some t
+  | Some (CBool (Some b)) => if query_bool_block_str_view then Some (if b then b_true else b_false) else None
+  | _ => None
+  end.
 Definition str_at (c : option cell) (op : cmp) (s : bytes) : bool :=
-  match c with Some (CStr t) => str_op op t s | _ => false end.
+  match cell_str c with Some t => str_op op t s | None => false end.
 Definition in_num_at (c : option cell) (vs : list Z) : bool :=
   match c with
   | Some (CU64 (Some n)) => (Z.of_N n <=? i64_max)%Z && memZ (Z.of_N n) vs
@@ -214,7 +238,7 @@ Definition in_num_at (c : option cell) (vs : list Z) : bool :=
   | _ => false
   end.
 Definition in_str_at (c : option cell) (ss : list bytes) : bool :=
-  match c with Some (CStr t) => mem_bytes t ss | _ => false end.
+  match cell_str c with Some t => mem_bytes t ss | None => false end.
 
 Fixpoint eval_at (g : bytes -> option cell) (c : cond) {struct c} : option bool :=
   match c with
